@@ -75,3 +75,22 @@ PROPS["C04"] = dict(
     floors={"quick": {"boundary_exactly_reaching_quorum": 200, "boundary_just_below_quorum": 200, "overlap_corruptions": 50, "incremental_qc_reached_quorum": 200, "CommitQC_genuine": 500, "TimeoutQC_genuine": 500},
             "thorough": {"boundary_exactly_reaching_quorum": 2000}},
 )
+
+PROPS["C02"] = dict(
+    title="Certificate uniqueness: a certified block can never be displaced",
+    level="exploration",
+    technique="runtime oracle: safety expectation + spec reference for get_implied_block on generated history-consistent timeout certificates (E2); history monitor of potential commit quorums in the replica simulator (E1)",
+    explanation="(a) ProposalJustification::get_implied_block of /repo is evaluated on timeout certificates generated from a ground-truth "
+    "history: block (k,h) gathered a commit quorum Q in view v, faulty set B (weight <= f) reports anything it could validly sign, "
+    "signer quorum S; correct signers report what such a history allows. Expected: (k, Some(h)) unless the certificate for k is "
+    "reported, then number k+1. All (Q,B,S) triples are enumerated for the 6 x weight-1 committee; other committees (1-12 validators, "
+    "four weight families) are sampled. Every result is also compared with a reference written from spec/informal-spec/types.rs, on "
+    "history-consistent and on arbitrary assignments. Counters prove the sub-quorum boundary (exactly at / one below / two sub-quorums) was hit.",
+    assumptions=[
+        "the history model (which high votes / certificates correct validators can report after a commit quorum) is the induction hypothesis of the ChonkyBFT safety argument",
+        "held on the generated certificates only; complete only over (Q,B,S) of the 6-validator committee, with sampled report alphabets",
+    ],
+    stages=[dict(name="implied-block", flavour="release", **E2)],
+    floors={"quick": {"boundary_high_vote_weight_exactly_subquorum": 1000, "boundary_high_vote_weight_one_below_subquorum": 1000, "boundary_two_subquorums": 20, "family_A-locked-block": 10000, "family_B-some-saw-certificate": 10000, "family_A-faulty-reports-certificate": 1000, "exhaustive_QBS_enumerations": 1},
+            "thorough": {"boundary_two_subquorums": 100, "exhaustive_QBS_enumerations": 1}},
+)
